@@ -25,6 +25,49 @@ CHECKS = {
     "C07": dict(tech="TLC model checking of the moment-order recursion + exact-value replay with order lists and origins",
                 text="as C01 for multipole moments: every order triple list, origins on/off/far from centres, all types",
                 ref="DESIGN.md section 6 (C07)"),
+    "C03": dict(tech="TLC evaluation of the Gaussian-transform (Rys polynomial) definition in prime-field arithmetic + exact-value "
+                     "replay for every ordered (l_a, l_b) <= 5 and charges on / between / far from centres",
+                text="TLC evaluates the definition of <a|1/r_C|b> (per-axis polynomials in s, Boys-function basis) at the exact "
+                     "parameters of the replay cases and checks that the two-electron definition reduces to it; gbasis' "
+                     "point-charge arrays are compared per charge with tolerance 1e-8*sqrt(V_aa V_bb), nuclear attraction with "
+                     "their sum, shell blocks in both orientations",
+                ref="DESIGN.md section 6 (C03)"),
+    "C04": dict(tech="TLC evaluation of the two-electron Rys-polynomial definition (bivariate-normal moments) + exact-value replay of "
+                     "all 256 angular-momentum 4-tuples, ill-conditioned fixed list, whole bases in both notations",
+                text="every shell quartet l <= 3 enumerated; block elements compared with exact values on the Schwarz scale "
+                     "(1e-6), both Schwarz factors exact; whole-basis tensors in chemists' and physicists' notation; the fixed "
+                     "list of tight-core/diffuse quartets in both bra/ket orientations",
+                ref="DESIGN.md section 6 (C04)"),
+    "C05": dict(tech="TLC proof-by-enumeration of polynomial identities (integer polynomials in x, alpha) for both derivative "
+                     "back-ends + exact-value replay at dyadic points incl. centres and coordinate planes",
+                text="the Leibniz/Hermite sum of the general back-end and the hand-expanded direct formulas equal the defining "
+                     "polynomial Q_{a,m} for a <= 8, m <= 5 as polynomials (hence for all reals); replay of all order triples "
+                     "0..4 against exact values; direct with an order above 2 must be rejected",
+                ref="DESIGN.md section 6 (C05)"),
+    "C06": dict(tech="TLC model checking of formal bilinear forms (Fields.tla) + exact replay + threshold decision table",
+                text="as-implemented Leibniz half-range loop, gradient, Laplacian, Hessian bookkeeping equal their definitions for "
+                     "all 125 order triples and all components (TLC, exhaustive); field values replayed against exact basis-function "
+                     "derivatives; threshold rule exercised with exactly known negative values on both sides of the boundary",
+                ref="DESIGN.md section 6 (C06)"),
+    "C15": dict(tech="TLC model checking of formal differentiation (stress = documented expression, force = -div stress, "
+                     "Hessian = Jacobian of force, guards) + exact replay",
+                text="the three differential relations are finite symbolic identities with coefficients polynomial in alpha, beta; "
+                     "TLC checks them for every tensor component together with the guarded special cases; replay at alpha, beta "
+                     "in {0, 1/2, 1, generic}",
+                ref="DESIGN.md section 6 (C15)"),
+    "C09": dict(tech="TLC model checking of the as-implemented numpy pipelines on symbolic tensors against the documented layout "
+                     "(every type pattern) + numpy binding + dummy-block / public-function / convention replay",
+                text="for every cartesian/spherical assignment (1-4 shells one-index, 1-3 two-index, 1-2 four-index) the "
+                     "tensordot/swapaxes/concatenate pipelines equal Layout symbolically, with and without a rectangular "
+                     "transformation; negative controls must be reported; every enumerated pattern is replayed on labelled dummy "
+                     "blocks through the real base classes, on every public function, and with permuted/sign-flipped conventions",
+                ref="DESIGN.md section 6 (C09)"),
+    "C10": dict(tech="TLC exhaustive check of the solid-harmonic characterisation for every l <= 10 + enumeration of conventions as a "
+                     "state machine + replay of every reachable convention",
+                text="for every l <= 10 and every (m, m') the transcribed expansion is harmonic, proportional to the Legendre-form "
+                     "definition, orthonormal on unit-normalised Cartesians, with positive pole phase; every order/sign pattern for "
+                     "l <= 2 and every Cartesian order for l <= 2 (depth-bounded above) is honoured exactly or rejected",
+                ref="DESIGN.md section 6 (C10)"),
     "C08": dict(tech="TLC model checking (derivative/moment tables) + exact-value replay of every ordered pair and component "
                      "+ Hermiticity of the assembled arrays",
                 text="momentum and angular-momentum arrays compared with exact values of -i<a|grad|b>, -i<a|r x grad|b> for "
